@@ -41,6 +41,7 @@ func init() {
 	execs["c11.parse"] = execC11Parse
 	execs["c11.recv"] = execC11Recv
 	execs["c11.session"] = execC11Session
+	execs["c11.multi"] = execC11Multi
 	execs["c11.csend"] = execC11CSend
 	execs["c11.conc"] = execC11Conc
 	execs["c11.stress"] = execC11Stress
@@ -297,10 +298,34 @@ type c11Server struct {
 	err       error
 }
 
-func execC11Session(in sx.V) sx.V {
+func execC11Session(in sx.V) sx.V { return execC11SessionKey(in, nil) }
+
+// execC11Multi: several connections made one after the other by one process,
+// to the same or to different servers; with reuse the application keeps ONE
+// key buffer and overwrites it with the key of the next server.
+func execC11Multi(in sx.V) sx.V {
+	reuse := in.List[0].Bool
+	buf := make([]byte, 32)
+	var outs []sx.V
+	for _, s := range in.List[1].List {
+		if reuse {
+			copy(buf, s.List[1].Bytes)
+			outs = append(outs, execC11SessionKey(s, buf))
+		} else {
+			outs = append(outs, execC11SessionKey(s, nil))
+		}
+	}
+	return sx.L(outs...)
+}
+
+// keyBuf, when given, is the caller-owned buffer holding the server key.
+func execC11SessionKey(in sx.V, keyBuf []byte) sx.V {
 	a := in.List
 	spriv := ed25519.NewKeyFromSeed(a[0].Bytes)
 	spub, params, cseed := a[1].Bytes, a[2].Bytes, a[3].Bytes
+	if keyBuf != nil {
+		spub = keyBuf
+	}
 	c2s, s2c := c11MsgsOf(a[8]), c11MsgsOf(a[9])
 	lens := a[10].List
 	if c11Listener == nil {
@@ -816,6 +841,7 @@ func genC11(c *Ctx) {
 	// --- several goroutines sending on one Connection
 	genC11Concurrent(c)
 	genC11Magic(c)
+	genC11Multi(c)
 
 	// --- the 8 MiB limit on the implementation only (the extracted model would need minutes)
 	if c.Thorough() {
@@ -824,7 +850,27 @@ func genC11(c *Ctx) {
 }
 
 func c11Session(c *Ctx, r *prng.R, big int, forceBig bool, hsSplit int) {
-	sseed, cseed, params := r.Bytes(32), r.Bytes(32), r.Bytes(160)
+	b := c11SessionBuild(c, r, big, forceBig, hsSplit, nil)
+	if b == nil {
+		return
+	}
+	out := c.Emit("c11.session", b.in, b.class)
+	c11SessionCheck(c, "c11.session", b.in, b, out)
+}
+
+type c11Built struct {
+	in       sx.V
+	class    string
+	shc, shs []byte
+	c2s, s2c []c11RefPacket
+}
+
+// c11SessionBuild draws one session (server key from sseed when given).
+func c11SessionBuild(c *Ctx, r *prng.R, big int, forceBig bool, hsSplit int, sseed []byte) *c11Built {
+	cseed, params := r.Bytes(32), r.Bytes(160)
+	if sseed == nil {
+		sseed = r.Bytes(32)
+	}
 	spriv := ed25519.NewKeyFromSeed(sseed)
 	spub := []byte(spriv.Public().(ed25519.PublicKey))
 	cpriv := ed25519.NewKeyFromSeed(cseed)
@@ -832,7 +878,7 @@ func c11Session(c *Ctx, r *prng.R, big int, forceBig bool, hsSplit int) {
 	shc, err1 := c11RefShared(cpriv, spub)
 	shs, err2 := c11RefShared(spriv, cpub)
 	if err1 != nil || err2 != nil {
-		return
+		return nil
 	}
 	mk := func(n int, first bool) ([]c11RefPacket, int) {
 		var ms []c11RefPacket
@@ -924,26 +970,74 @@ func c11Session(c *Ctx, r *prng.R, big int, forceBig bool, hsSplit int) {
 		}
 		class = "session|confirmation-split|" + where
 	}
-	out := c.Emit("c11.session", in, class)
-	// property oracle: the reference server accepts the handshake and recovers
-	// the parameters; every payload arrives in order and intact in both directions
-	if !bytes.Equal(shc, shs) {
-		c.Fail("c11.session", in, "c11-dh", "X25519 secrets of the two sides differ")
+	return &c11Built{in: in, class: class, shc: shc, shs: shs, c2s: c2s, s2c: s2c}
+}
+
+// property oracle: the reference server accepts the handshake and recovers
+// the parameters; every payload arrives in order and intact in both directions
+// (whole = the case the failure is reported for, e.g. the enclosing c11.multi)
+func c11SessionCheck(c *Ctx, kind string, whole sx.V, b *c11Built, out sx.V) {
+	if !bytes.Equal(b.shc, b.shs) {
+		c.Fail(kind, whole, "c11-dh", "X25519 secrets of the two sides differ")
 	}
 	if out.K != sx.KL || len(out.List) != 6 || !out.List[1].Bool {
-		c.Fail("c11.session", in, "c11-handshake", "the reference server does not complete the handshake: "+trunc(out.String(), 60))
+		c.Fail(kind, whole, "c11-handshake", "the reference server does not complete the handshake: "+trunc(out.String(), 60))
 		return
 	}
-	if !c11PayloadsEqual(out.List[4], s2c[1:]) {
-		c.Fail("c11.session", in, "c11-server-to-client", "payloads sent by the server were not delivered in order and intact")
+	if !c11PayloadsEqual(out.List[4], b.s2c[1:]) {
+		c.Fail(kind, whole, "c11-server-to-client", "payloads sent by the server were not delivered in order and intact")
 	}
 	fr := out.List[5]
-	ok := len(fr.List) == len(c2s)
-	for i := 0; ok && i < len(c2s); i++ {
-		ok = bytes.Equal(fr.List[i].List[0].Bytes, c2s[i].nonce) && bytes.Equal(fr.List[i].List[1].Bytes, c2s[i].payload)
+	ok := len(fr.List) == len(b.c2s)
+	for i := 0; ok && i < len(b.c2s); i++ {
+		ok = bytes.Equal(fr.List[i].List[0].Bytes, b.c2s[i].nonce) && bytes.Equal(fr.List[i].List[1].Bytes, b.c2s[i].payload)
 	}
 	if !ok {
-		c.Fail("c11.session", in, "c11-client-to-server", "payloads sent by the client were not received in order and intact by the reference server")
+		c.Fail(kind, whole, "c11-client-to-server", "payloads sent by the client were not received in order and intact by the reference server")
+	}
+}
+
+// sequences of connections from one process: servers drawn from a small pool
+// (so that A, B, A and A, A occur), one key buffer reused or a fresh slice each
+func genC11Multi(c *Ctx) {
+	r := c.R
+	for i := 0; i < c.Scale(6, 40); i++ {
+		pool := [][]byte{r.Bytes(32), r.Bytes(32), r.Bytes(32)}
+		n := 2 + r.Intn(4)
+		reuse := i%2 == 0
+		var bs []*c11Built
+		var ins []sx.V
+		pattern := ""
+		for j := 0; j < n; j++ {
+			k := r.Intn(len(pool))
+			if j == 1 && i < 2 { // B right after A, and A right after A
+				k = (int(pattern[0]-'A') + 1 - i) % len(pool)
+			}
+			b := c11SessionBuild(c, r, 120, false, 0, pool[k])
+			if b == nil {
+				continue
+			}
+			pattern += string(rune('A' + k))
+			bs = append(bs, b)
+			ins = append(ins, b.in)
+		}
+		in := sx.L(sx.B(reuse), sx.L(ins...))
+		out := c.Emit("c11.multi", in, fmt.Sprintf("multi|reuse=%v|n%d", reuse, len(bs)))
+		if out.K != sx.KL || len(out.List) != len(bs) {
+			c.Fail("c11.multi", in, "c11-handshake", "sequence of connections "+pattern+": "+trunc(out.String(), 60))
+			continue
+		}
+		eph := map[string]bool{}
+		for j, b := range bs {
+			c11SessionCheck(c, "c11.multi", in, b, out.List[j])
+			if o := out.List[j]; o.K == sx.KL && len(o.List) > 0 && o.List[0].K == sx.KBytes && len(o.List[0].Bytes) == 256 {
+				e := string(o.List[0].Bytes[32:64])
+				if eph[e] {
+					c.Fail("c11.multi", in, "c11-ephemeral-key", "sequence of connections "+pattern+": two handshakes carry the same ephemeral public key")
+				}
+				eph[e] = true
+			}
+		}
 	}
 }
 
